@@ -223,9 +223,10 @@ def segLine (args impl : List String) : String :=
           let c16 := match a with
             | .ioErr e => verdict "C16" (st != FileState.directory) (false) ++ (if st == FileState.directory ∧ e ≠ 21 then " errno:unexpected" else "")
             | _ => verdict "C16" (C16.segApplicable st) (C16.HoldsSeg st r a) ++ " " ++
-                   -- the literal reading ("whatever the file contained before"): a truncated usable
-                   -- segment counts too, and `short` (record not in the file) is then a failure
-                   verdict "C16strict" (st != FileState.directory) (C16.HoldsSeg st r a)
+                   -- `C16strict` used to be the reading that also counted truncated usable segments;
+                   -- `C16` now does (every prior state but a directory), so the two are the same
+                   -- verdict; the second name is kept for existing configuration
+                   verdict "C16strict" (C16.segApplicable st) (C16.HoldsSeg st r a)
           let (c17, c17m, t) := match a with
             | .done rc _ bs _ =>
               (verdict "C17" (decide (72 ≤ bs.length)) (C17.HoldsSeg bs r rc),
